@@ -165,6 +165,16 @@ def mssm_defects():
         tach("tach:%s:soft-dom" % sec, sec, {R: ("rel", L, 2.0, floor)}, sty,
              "tachyonic %s: %s^2 = -max(2 |%s|, %g)^2, negative eigenvalue of larger magnitude" % (sec, R, L, floor),
              also=("input",))
+    # A negative soft squared mass that is an OUTPUT of the DR-bar -> on-shell conversion (SLHA input):
+    # me2(2,2) is determined from the right-smuon pole mass (README: MSOFT[35] is only an "initial guess").
+    # At tree level m^2(smu_R) = me2 + m_mu^2 - MZ^2 sw^2 cos(2 beta), so with tan(beta) >= 10 a 20 GeV
+    # pole mass needs me2 = 400 - 1810 < 0 (left-right mixing shifts this by O(1 GeV^2)).  All input soft
+    # masses stay positive: the defect exists only in the converted parameter set.
+    # (The sneutrino analogue does not exist for tan(beta) > 1: ml2 = m^2 - MZ^2 cos(2 beta)/2 > 0.)
+    d = Defect("pole:SmR-light", "input", {"MSm_1": 20.0, "MSm_2": ("copy", "msl_2")}, ("slha",),
+               "right-smuon pole mass 20 GeV: on-shell me2(2,2) < 0 after the conversion", also=("tachyon",))
+    d.assumes = ("TB", "MZ", "MW")
+    D.append(d)
     return D
 
 
@@ -281,6 +291,8 @@ def apply(point, defects, helpers):
         for k, v in d.set.items():
             if isinstance(v, tuple) and v[0] == "rel":
                 late.append((k, v))          # relative to another (possibly modified) parameter
+            elif isinstance(v, tuple) and v[0] == "copy":
+                p[k] = abs(point[v[1]])      # value of another parameter of the valid base point
             elif v is REMOVE:
                 p.pop(k, None)
             elif v == "negate":
